@@ -408,6 +408,10 @@ func apiSpecs() []*HarnessSpec {
 			{"n": {3}, "L": {2}, "lens": rng(0, 26), "mode": {0, 1}, "lq": {1, 2, 3}},
 			{"n": {4}, "L": {1}, "lens": rng(0, 15), "mode": {0, 1}, "lq": {2}}},
 		Note: "symbolic records (key, int64 offset): strictly increasing offsets with Get, non-decreasing block offsets (arbitrary block structure as models of the symbolic offsets) with RangeGet; a key-verifying reader; found exactly for indexed keys with the stored record, for an arbitrary symbolic query"})
+	out = append(out, &HarnessSpec{Name: "ix_skel", Pkg: "index", Property: "C12", Witness: 1,
+		Quick:    []Grid{{"keys": {7, 105, 120, 154, 194, 342}, "bs": {1, 3, 64}, "lq": {1}}},
+		Thorough: []Grid{{"keys": append([]int{7, 154, 194, 342, 623}, step(105, 400, 15)...), "bs": {1, 2, 3, 7, 64}, "lq": {1, 2}}},
+		Note:     "L3: concrete key sets (257-bit root, 64-aligned bitmap lengths / leaf counts / inner-node counts, sweeps) with block sizes 1..64: every indexed key returns its record; a symbolic query is found exactly when indexed"})
 	// ---- C16 ----
 	out = append(out, &HarnessSpec{Name: "arr_map", Pkg: "array", Property: "C16", Witness: 1,
 		Quick: []Grid{{"type": rng(0, 5), "n": {1}, "words": rng(0, 5), "pw": rng(0, 5), "loaded": {0}},
